@@ -189,7 +189,7 @@ def cases(M):
     vias = ["add", "add_split", "sub", "op+", "op-", "radd", "td_add", "add_float"]
     if M.shard % 2 == 0:
         for zn in (("Europe/Paris", "America/New_York", "Australia/Lord_Howe", "Europe/London", "Asia/Tehran", "America/St_Johns")[M.shard // 2 % 6], r.choice(zones) if zones else "Europe/Paris"):
-            yield {"k": "threads", "z": zn, "seed": r.randrange(1 << 30), "n": 6000 if thorough else 1500}
+            yield {"k": "threads", "z": zn, "seed": r.randrange(1 << 30), "n": 8000 if thorough else 2500}
     for zn in zones:
         z = tzdb.Z.get(zn)
         for i, (t, ob, oa, _) in enumerate(z.trans):
@@ -331,7 +331,7 @@ def _threads(M, c):
 
     M.quiet += 1
     try:
-        hist, st = conc.run(items, one, nthreads=4, chunk=50)
+        hist, st = conc.run(items, one, nthreads=6, chunk=50)
     finally:
         M.quiet -= 1
     for k_, v in st.items():
